@@ -102,9 +102,15 @@ class EASRadio:
 
         Re = R_earth.to(km).value
         B_angle = np.ones(altDec[mask].shape)
+        # angle at the decay point between the trajectory and the local vertical:
+        # (lenDec^2 + (altDec + Re)^2 - Re^2) / (2 lenDec (altDec + Re)) written in the
+        # equivalent form that stays finite (0/0) as lenDec -> 0
         B_angle *= np.pi / 2.0 - np.arccos(
-            (lenDec[mask] ** 2.0 + (altDec[mask] + Re) ** 2.0 - Re**2.0)
-            / (2.0 * lenDec[mask] * (altDec[mask] + Re))
+            np.clip(
+                (lenDec[mask] + Re * np.sin(beta[mask])) / (altDec[mask] + Re),
+                -1.0,
+                1.0,
+            )
         )
         bounds = np.radians(30.0)
         B_angle += np.random.uniform(-1.0 * bounds, bounds, altDec[mask].shape)
